@@ -208,14 +208,15 @@ def run(ctx):
             wit = {"source": tag, "operations": list(seq)}
             if dfs:
                 for p, a, b in dfs[:3]:
-                    ctx.violation("C18/%s/changed%s" % (op, S.generalise(p)), "%s: before %s after %s" % (p, a, b), wit)
+                    ctx.violation("C18/changed%s" % S.generalise(p), "operation %s: %s: before %s after %s" % (op, p, a, b),
+                                  wit)
                 return seq
             if op in ("export_xml", "export_pb", "draw", "is_reached", "hash", "eq", "occupancy_set", "deepcopy", "pickle") \
                     or rng.random() < 0.15:
                 exp = exports(sc, pps)
                 for fmt in exp:
                     if exp[fmt] != base_exp[fmt]:
-                        ctx.violation("C18/%s/export-%s-differs-afterwards" % (op, fmt),
+                        ctx.violation("C18/export-%s-differs-afterwards/after-%s" % (fmt, op),
                                       "exporting the scenario after the operation gives another file", wit)
                         return seq
         return seq
